@@ -329,7 +329,6 @@ def run(ctx):
         ctx.note('ThreadWorker.wait lacks the negative-timeout check its siblings have (sibling inconsistency, not armed)')
 
 
-_so_cache = {}
 
 
 def endpoint_get_honours_timeout(ctx):
@@ -360,6 +359,7 @@ def endpoint_get_honours_timeout(ctx):
 
 
 def start_only_attrs(ctx, cls):
+    _so_cache = ctx.an.__dict__.setdefault('_start_only_cache', {})
     if cls.qualname in _so_cache:
         return _so_cache[cls.qualname]
     init_assigned, start_assigned = set(), set()
